@@ -51,7 +51,7 @@ def operator_tables(rep):
 
 def bounded(rep, tier):
     from vrf.bounded import reemit_grid as G
-    nseed, depth = (60, 3) if tier == "quick" else (400, 5)
+    nseed, depth = (60, 3) if tier == "quick" else (3000, 5)
     for oid, jobs, fn, bound, what, func in (
             ("C19.reemit-grid", [(s, depth if s % 3 else depth - 1) for s in range(nseed)], G.reemit_case,
              "%d x 40 random expressions to depth %d over names, constants, attribute/subscript/slices, calls with * and **, unary/binary/boolean/comparison operators incl. ** and @, conditional expressions, lambdas (all parameter kinds), tuples/lists/sets/dicts incl. unpacking, comprehensions, f-strings, :=" % (nseed, depth),
@@ -76,7 +76,7 @@ def bounded(rep, tier):
         rep.add(Result("C19.identifiers-grid", BOUNDED_OK, klass="B", backend="symtable-oracle", function="mako.pyparser:FindIdentifiers", bound=b2, evaluations=len(G.STMTS),
                        time_s=time.time() - t1, detail="names demanded from the context = names symtable reports as read but not bound by the code"))
     t15 = time.time()
-    ns = 40 if tier == "quick" else 400
+    ns = 40 if tier == "quick" else 4000
     outs = [x for o in pool_map(G.scope_random_case, list(range(ns))) for x in o]
     b25 = "%d x 25 random nested-scope programs (defs, lambdas with every parameter kind and defaults, comprehensions) over a pool of four names, so that inner bindings collide with outer reads" % ns
     if outs:
